@@ -57,6 +57,7 @@ class Sched:
         self.switches = 0
         self.max_steps = max_steps
         self.deadlock = None
+        self.no_preempt = 0  # > 0 while a monitor runs: line events do not yield
         self.p_jump = 0.0   # probability per dispatch that runnable threads are "descheduled" until the next timeout
         self.jumps = 0
         self.killed = False
@@ -402,7 +403,7 @@ class LineMonitor:
     def _cb(self, code, line):
         if not code.co_filename.startswith(self.prefixes):
             return sys.monitoring.DISABLE
-        if self.active:
+        if self.active and not self.sched.no_preempt:
             self.lines += 1
             self.sched.yield_point("line")
 
